@@ -69,6 +69,37 @@ func expectedLocs(site string) []ErrorLocation {
 	return nil
 }
 
+// expectedIndex: for the indexed locations, which entry of r.Mounts / r.RLimits was being
+// processed when the occ-th call of the site failed (entry layout fixed by newLaunchX).
+func expectedIndex(r *Runner, site string, occ int, loc ErrorLocation) (int, bool) {
+	switch {
+	case site == "prlimit64" && loc == LocSetRlimit:
+		return occ - 1, true
+	case site == "mkdirat" && loc == LocMountMkdir:
+		// prefixes: mount 0 has 1 component, mount 1 has 3
+		if occ == 1 {
+			return 0, true
+		}
+		return 1, true
+	case site == "mount" && loc == LocMount:
+		pre := 0
+		if r.CloneFlags&syscall.CLONE_NEWNS != 0 {
+			pre++
+		}
+		if r.PivotRoot != "" {
+			pre++
+		}
+		// mount 0 is a read-only bind: mount + remount; mount 1 a tmpfs: one call
+		if occ-pre <= 2 {
+			return 0, true
+		}
+		return 1, true
+	case site == "statfs" && loc == LocMount:
+		return 0, true
+	}
+	return 0, false
+}
+
 // c07: one fault (arbitrary errno) injected at an arbitrary launch step, or a failing sync
 // callback: the program never runs, the error names the failing step, the child is killed
 // and reaped and the sync channel is closed when Start returns.
@@ -82,7 +113,6 @@ func c07(part int) {
 	sym.Assume(r.Credential != nil && len(r.Credential.Groups) > 0 && len(r.Mounts) > 0 && len(r.RLimits) > 0 && r.PivotRoot != "")
 	sym.Assume(!r.Credential.NoSetGroups)
 	sym.Assume(!r.NoNewPrivs)
-	sym.Assume(!r.StopBeforeSeccomp)
 	sym.Assume(!r.DropCaps)
 	sym.Assume(r.GIDMappingsEnableSetgroups)
 	sym.Assume(r.CloneFlags == 0 || r.CloneFlags == syscall.CLONE_NEWUSER|syscall.CLONE_NEWNS|syscall.CLONE_NEWPID|syscall.CLONE_NEWUTS)
@@ -107,6 +137,7 @@ func c07(part int) {
 	if l.syncCalls > 0 {
 		sym.Assert(l.syncCalls == 1, "the sync callback must run at most once")
 		sym.Assert(l.syncChild != nil && l.syncBlocked && !l.syncExeced, "the sync callback must run while the child is blocked before exec")
+		sym.Assert(!l.syncAckPending, "the acknowledgement was sent to the child before the sync callback ran")
 	}
 	// the launching process' descriptor table is back to what it was
 	for fd, e := range host.Fds {
@@ -144,8 +175,10 @@ func c07(part int) {
 			}
 			sym.Extra("site", k.FaultAt)
 			sym.Assert(ok, "the error does not name the failing step: site "+k.FaultAt+" reported as "+ce.Location.String())
-			if k.FaultAt != "open_idmap" && k.FaultAt != "write_idmap" || true {
-				sym.Assert(ce.Err == k.FaultErrno, "the error must carry the errno of the failing step")
+			sym.Assert(ce.Err == k.FaultErrno, "the error must carry the errno of the failing step")
+			if want, ok := expectedIndex(r, k.FaultAt, k.FaultIdx, ce.Location); ok {
+				sym.Reach("indexed-step")
+				sym.Assert(ce.Index == want, "the error must carry the index of the failing mount / limit entry")
 			}
 		} else if !cbFails {
 			sym.Assert(false, "a failed launch step must be reported as a ChildError")
